@@ -71,9 +71,13 @@ Definable(c) ==
 ---------------------------------------------------------------------------
 (* (a) THE RULE                                                            *)
 
-MethodKinds == {"meth", "smeth", "ctor", "usep", "user", "usee", "usea", "reta", "rval", "gct", "dtor",
+MethodKinds == {"meth", "smeth", "ctor", "ctorof", "cctor", "getter", "seqget", "usep", "user", "usee", "usea", "reta", "rval", "gct", "dtor",
                 "vmeth", "vdtor", "sig", "opeq", "opneg", "cast"}
-DataKinds == {"data", "datap", "cdata", "sdata"}
+DataKinds == {"data", "datap", "dataa", "cdata", "sdata"}
+\* MAKE_PROPERTY / MAKE_SEQ publish an element / sequence of the class: they are declarations with a visibility like
+\* any other (and never make the accessor they name callable by themselves)
+PropKinds == {"mprop", "mseq"}
+PropGate(c, i) == Mbr(c, i).k \in PropKinds /\ Rank(VisAt(c, i)) <= MinRank
 \* a member function of a defined class is callable iff
 MethodGate(c, i) == LET m == Mbr(c, i) IN
   /\ m.k \in MethodKinds
@@ -82,6 +86,7 @@ MethodGate(c, i) == LET m == Mbr(c, i) IN
        [] OTHER        -> Rank(VisAt(c, i)) <= MinRank
   /\ ~SigProtected(m) /\ ~SigIgnored(m) /\ ~SigRvalue(m)
   /\ ~IgnoredMember(c, i)
+  /\ ~SkipInherited(c, i)
 \* "del", "tmpl", "friend", "tdef" never yield a callable
 
 \* a data member yields an element (and accessor functions when its type can be named)
@@ -90,7 +95,7 @@ DataCallable(c, i) == DataGate(c, i) /\ ~SigProtected(Mbr(c, i))
 
 \* a nested type declaration is walked iff
 NestGate(c, i) == LET m == Mbr(c, i) IN
-  /\ m.k \in {"nclass", "enum"}
+  /\ m.k \in {"nclass"} \cup EnumKinds
   /\ Rank(VisAt(c, i)) <= MinRank \/ (m.k = "nclass" /\ Forced(m.rc))
 
 \* namespace-scope declarations: build() only looks at the global scope of S_local files
@@ -133,12 +138,12 @@ Demands(x) ==
   ELSE LET c == x.c IN
     (IF Cls(c).outer # 0 THEN {CT(Cls(c).outer)} ELSE {})                  \* so does a nested class
     \cup (IF Definable(c) \/ (Unpublished(c) /\ (Forced(c) \/ (~IgnoredType(c) /\ LocalFile(Cls(c).file))))
-            THEN {CT(Cls(c).bases[b].c) : b \in {y \in 1..Len(Cls(c).bases) : Rank(Cls(c).bases[y].acc) <= 1}}
+            THEN {CT(Cls(c).bases[b].c) : b \in {y \in 1..Len(Cls(c).bases) : Rank(BaseAcc(c, y)) <= 1}}
             ELSE {})
     \cup (IF Definable(c)
             THEN {RefOf(Mbr(c, i)) : i \in {j \in 1..NM(c) : (MethodGate(c, j) \/ DataGate(c, j)) /\ HasRef(Mbr(c, j))}}
                  \cup {CT(Mbr(c, i).rc) : i \in {j \in 1..NM(c) : NestGate(c, j) /\ Mbr(c, j).k = "nclass"}}
-                 \cup {ET(c, i) : i \in {j \in 1..NM(c) : NestGate(c, j) /\ Mbr(c, j).k = "enum"}}
+                 \cup {ET(c, i) : i \in {j \in 1..NM(c) : NestGate(c, j) /\ Mbr(c, j).k \in EnumKinds}}
                  \cup {CT(TargetClass(Mbr(c, i).ra)) : i \in {j \in 1..NM(c) : NestAliasGate(c, j)}}
             ELSE {})
 
@@ -148,7 +153,7 @@ Closure(S) == LET S2 == S \cup UNION {Demands(x) : x \in S} IN IF S2 = S THEN S 
 RKnown == Closure(Roots)
 RDefined == {x \in RKnown : IF IsClassT(x) THEN Definable(x.c) ELSE Rank(VisAt(x.c, x.i)) <= MinRank}
 RCallable ==
-  UNION {{[t |-> "m", c |-> x.c, i |-> i] : i \in {j \in 1..NM(x.c) : MethodGate(x.c, j) \/ DataCallable(x.c, j)}}
+  UNION {{[t |-> "m", c |-> x.c, i |-> i] : i \in {j \in 1..NM(x.c) : MethodGate(x.c, j) \/ DataCallable(x.c, j) \/ PropGate(x.c, j)}}
            : x \in {y \in RDefined : IsClassT(y)}}
   \cup {[t |-> "t", c |-> 0, i |-> t] : t \in {x \in 1..NT : TopGate(x)}}
 RGlobal == {CT(c) : c \in {x \in 1..NC : ScanClass(x) \/ Forced(x)}}
@@ -225,7 +230,7 @@ DefineStep ==
                  /\ UNCHANGED <<glob, calls>>
             ELSE LET c == x.c
                      outerT == IF Cls(c).outer # 0 THEN {CT(Cls(c).outer)} ELSE {}
-                     pubBases == {CT(Cls(c).bases[b].c) : b \in {y \in 1..Len(Cls(c).bases) : Rank(Cls(c).bases[y].acc) <= 1}}
+                     pubBases == {CT(Cls(c).bases[b].c) : b \in {y \in 1..Len(Cls(c).bases) : Rank(BaseAcc(c, y)) <= 1}}
                      entered == Forced(c) \/ ~IgnoredType(c)                      \* get_type: forced || !in_ignoretype
                      nonlocal == ~Forced(c) /\ ~LocalFile(Cls(c).file) IN
                  IF ~entered \/ nonlocal
@@ -242,15 +247,16 @@ DefineStep ==
                                    LET m == Mbr(c, i) IN
                                    /\ m.k \in MethodKinds
                                    /\ (m.k \in {"dtor", "vdtor", "gct"} /\ Rank(VisAt(c, i)) <= 1) \/ Rank(VisAt(c, i)) <= MinRank
-                                   /\ ~SigProtected(m) /\ ~SigIgnored(m) /\ ~IgnoredMember(c, i) /\ ~SigRvalue(m)}
+                                   /\ ~SigProtected(m) /\ ~SigIgnored(m) /\ ~IgnoredMember(c, i) /\ ~SigRvalue(m)
+                                   /\ ~SkipInherited(c, i)}
                        \* scan_element: on the unchanged tree it does not consult ignoremember (ElemIgnore = FALSE)
                        elems == {i \in 1..NM(c) : Mbr(c, i).k \in DataKinds /\ Rank(VisAt(c, i)) <= MinRank
                                                     /\ (ElemIgnore => ~IgnoredMember(c, i))}
-                       nests == {i \in 1..NM(c) : Mbr(c, i).k \in {"nclass", "enum"} /\
+                       nests == {i \in 1..NM(c) : Mbr(c, i).k \in ({"nclass"} \cup EnumKinds) /\
                                    (Rank(VisAt(c, i)) <= MinRank \/ (Mbr(c, i).k = "nclass" /\ Forced(Mbr(c, i).rc)))}
                        refs == {RefOf(Mbr(c, i)) : i \in {j \in meths \cup elems : HasRef(Mbr(c, j))}}
                                \cup {CT(Mbr(c, i).rc) : i \in {j \in nests : Mbr(c, j).k = "nclass"}}
-                               \cup {ET(c, i) : i \in {j \in nests : Mbr(c, j).k = "enum"}}
+                               \cup {ET(c, i) : i \in {j \in nests : Mbr(c, j).k \in EnumKinds}}
                                \* a nested typedef whose chain of plain aliases ends in a struct
                                \cup {CT(TargetClass(Mbr(c, i).ra)) :
                                         i \in {j \in 1..NM(c) : Mbr(c, j).k = "alias" /\ ChainWraps(Mbr(c, j).ra) = {}
@@ -258,6 +264,8 @@ DefineStep ==
                    /\ defd' = defd \cup {x}
                    /\ glob' = glob \cup {x}                          \* "a struct type should always be global"
                    /\ calls' = calls \cup {[t |-> "m", c |-> c, i |-> i] : i \in meths}
+                                     \cup {[t |-> "m", c |-> c, i |-> i] :
+                                              i \in {j \in 1..NM(c) : Mbr(c, j).k \in PropKinds /\ Rank(VisAt(c, j)) <= MinRank}}
                                      \cup {[t |-> "m", c |-> c, i |-> i] : i \in {j \in elems : ~SigProtected(Mbr(c, j))}}
                    /\ req' = (req \ {x}) \cup ((outerT \cup pubBases \cup refs) \ (known \cup {x}))
   /\ UNCHANGED <<lib, cur, done, phase, pos>>
